@@ -41,7 +41,11 @@ type c14Case struct {
 	ae      string // caller-set Accept-Encoding ("" = not set)
 	rng     string // caller-set Range
 	ce      []string
-	ctype   string
+	ctype   string   // Content-Type the origin sends ("" = the field is absent)
+	extra   []string // further response header fields k,v,… (keys from c14Others, canonical, in that order)
+	params  string   // how the payload was encoded (codec parameters), for the human rendering
+	mirror  bool     // the origin repeats the Content-Encoding values in X-Ce-Mirror (see arrivedCE)
+	arrived []string // filled by c14Observe: X-Ce-Mirror as the client's header parser delivered it
 	payload []byte
 	wire    []byte
 	stream  string // valid | trunc | flip | emptywire | short
@@ -137,8 +141,20 @@ func (o *c14Origin) ServeHTTP(w http.ResponseWriter, r *http.Request) {
 	for _, v := range c.ce {
 		h.Add("Content-Encoding", v)
 	}
-	h.Set("Content-Type", c.ctype)
+	if c.ctype == "" {
+		h["Content-Type"] = nil // no Content-Type at all (and no sniffing by the server)
+	} else {
+		h.Set("Content-Type", c.ctype)
+	}
 	h.Set("X-Keep", "k")
+	for i := 0; i+1 < len(c.extra); i += 2 {
+		h.Set(c.extra[i], c.extra[i+1])
+	}
+	if c.mirror {
+		for _, v := range c.ce {
+			h.Add("X-Ce-Mirror", v)
+		}
+	}
 	if c.bodiless() {
 		w.WriteHeader(c.status)
 		return
@@ -339,6 +355,12 @@ type c14Obs struct {
 
 var c14Tracked = []string{"Content-Encoding", "Content-Length", "X-Keep"}
 
+// c14Others: response header fields the decoding decision must NOT read and the rewrite must not
+// touch (non-interference: Req.Props.C14Lines.decision_ignores_content_type). Observed after the
+// tracked three, in this order.
+var c14Others = []string{"Content-Type", "Content-Disposition", "Cache-Control", "Vary", "Etag", "Content-Md5",
+	"Content-Location", "Content-Language", "Accept-Ranges", "X-Content-Type-Options", "X-Content-Encoding", "Content-Transfer-Encoding"}
+
 func c14TermReq(err error) string {
 	// "read on closed response body": recognised by its (observable) text, not by the name of
 	// the unexported variable that holds it
@@ -451,10 +473,13 @@ func c14Observe(c *c14Case, hr *http.Response, o *c14Obs) {
 	c.mu.Lock()
 	o.ae = c14JoinAE(c.seenAE)
 	c.mu.Unlock()
-	for _, k := range c14Tracked {
+	for _, k := range append(append([]string(nil), c14Tracked...), c14Others...) {
 		for _, v := range hr.Header[k] {
 			o.hdr = append(o.hdr, k, v)
 		}
+	}
+	if c.mirror {
+		c.arrived = append([]string{}, hr.Header["X-Ce-Mirror"]...)
 	}
 	o.status = hr.StatusCode
 	o.n = hr.ContentLength
@@ -485,12 +510,13 @@ func c14Observe(c *c14Case, hr *http.Response, o *c14Obs) {
 // corrupted: the encoded stream itself was damaged (bit flip, truncation with matching framing).
 func (c *c14Case) corrupted() bool { return c.stream == "flip" || c.stream == "trunc" }
 
-// flipUnchecked: a bit flip in a format without an integrity check (raw deflate, brotli) may
+// flipUnchecked: a bit flip in a format without an integrity check (raw deflate, brotli, a zstd
+// frame encoded without Content_Checksum) may
 // decode to anything - error, payload, or other bytes with a clean end, depending on the bit
 // and on how the input arrives. Nothing about the body can be judged; the decision, the headers
 // and the absence of a crash still are.
 func (c *c14Case) flipUnchecked() bool {
-	return c.stream == "flip" && (c.alg == "br" || c.alg == "deflate")
+	return c.stream == "flip" && (c.alg == "br" || c.alg == "deflate" || strings.Contains(c.params, "crc=false"))
 }
 
 func (o c14Obs) answer(c *c14Case) string {
@@ -522,7 +548,7 @@ func (o c14Obs) answer(c *c14Case) string {
 // sentHeader is the tracked part of what the origin wrote.
 func (c *c14Case) sentHeader() []string {
 	var h []string
-	for _, v := range c.ce {
+	for _, v := range c.arrivedCE() {
 		h = append(h, "Content-Encoding", v)
 	}
 	if c.framing == "cl" && !c.bodiless() {
@@ -531,7 +557,29 @@ func (c *c14Case) sentHeader() []string {
 	if c.bodiless() && c.proto == "h3" {
 		h = append(h, "Content-Length", "0") // quic-go's http3 server declares the empty body
 	}
-	return append(h, "X-Keep", "k")
+	return append(h, c.keptHeader()...)
+}
+
+// keptHeader: the tracked fields that are neither Content-Encoding nor Content-Length - whatever
+// is decided, they reach the caller as sent.
+func (c *c14Case) keptHeader() []string {
+	h := []string{"X-Keep", "k"}
+	if c.ctype != "" {
+		h = append(h, "Content-Type", c.ctype)
+	}
+	return append(h, c.extra...)
+}
+
+// arrivedCE: the Content-Encoding field lines as the client's header parser hands them to the
+// decoding branch. Optional white space around a field value is a matter of the framing layer
+// (HTTP/1.1 parsers strip it, HPACK / QPACK strings are delivered as sent); for cases that play
+// with it the origin repeats the values in X-Ce-Mirror, a field the client never touches, and
+// the model / oracle are given what arrived there.
+func (c *c14Case) arrivedCE() []string {
+	if c.mirror && c.arrived != nil {
+		return c.arrived
+	}
+	return c.ce
 }
 
 // declaredLength: Response.ContentLength as the framing layer reports it (before any decoding).
@@ -558,7 +606,8 @@ func c14b(b bool) string {
 	return "0"
 }
 
-// args renders the case for the driver lanes c14x / c14xlegacy.
+// args renders the case for the driver lanes c14xj (e2e lanes: several Content-Encoding lines are one
+// list, fixes/C14-7) / c14x (first line decides) / c14xlegacy.
 func (c *c14Case) args() string {
 	return strings.Join([]string{c.proto, c14b(c.dc), c14b(c.auto), verifh.Hex(c.method), verifh.Hex(c.ae), verifh.Hex(c.rng),
 		c14b(c.hasBody()), verifh.HexList(c.sentHeader()), strconv.FormatInt(c.declaredLength(), 10),
@@ -598,6 +647,17 @@ func (c *c14Case) wireFin() error {
 	return io.EOF
 }
 
+// c14CompressedType: a Content-Type that names a compression / archive format.
+func c14CompressedType(ct string) bool {
+	ct = strings.ToLower(ct)
+	for _, w := range []string{"gzip", "gunzip", "tgz", "gtar", "compress", "zstd", "brotli", "zlib", "deflate", "zip", "bzip", "x-xz", "7z", "rar"} {
+		if strings.Contains(ct, w) {
+			return true
+		}
+	}
+	return false
+}
+
 func c14Supported(tok string) bool {
 	return tok == "gzip" || tok == "deflate" || tok == "br" || tok == "zstd"
 }
@@ -609,6 +669,11 @@ func (c *c14Case) class(transportAsked bool) string {
 		ce = c.ce[0]
 	}
 	reaches := c.proto == "h3" || c.hasBody()
+	if len(c.ce) > 1 && c.method != "HEAD" && reaches &&
+		((transportAsked && strings.EqualFold(ce, "gzip")) || (c.auto && c14Supported(ce))) {
+		// the three branches read Header.Get: the first line decides, all lines are deleted
+		return "multi-line-content-encoding"
+	}
 	switch {
 	case c.proto == "h3" && transportAsked && strings.EqualFold(ce, "gzip") && ce != "gzip":
 		return "h3-gzip-case"
@@ -649,10 +714,21 @@ func (c *c14Case) oracle(o c14Obs) (ok bool, why string) {
 		}
 	}
 	ce := ""
-	if len(c.ce) > 0 {
-		ce = c.ce[0]
+	if a := c.arrivedCE(); len(a) > 0 {
+		ce = a[0]
+	}
+	if ce != strings.TrimSpace(ce) {
+		// optional white space around the field value reached the decoding branch (HTTP/2 and
+		// HTTP/3 deliver it): whether such a value "is" the token is the framing layer's
+		// matter - only model correspondence
+		return true, ""
 	}
 	decode := c.method != "HEAD" && ((transportAsked && strings.EqualFold(ce, "gzip")) || (c.auto && c14Supported(ce)))
+	if len(c.arrivedCE()) > 1 {
+		// several Content-Encoding field lines are a LIST of codings (RFC 9110 5.3), like the same
+		// codings on one line: left alone
+		decode = false
+	}
 	if want := c.wantStatus(c.rng != ""); o.status != want {
 		return false, fmt.Sprintf("status %d, sent %d", o.status, want)
 	}
@@ -660,11 +736,12 @@ func (c *c14Case) oracle(o c14Obs) (ok bool, why string) {
 		return true, "" // a zero-length body is not an encoded payload: only model correspondence
 	}
 	hdr := strings.Join(o.hdr, "\x00")
+	kept := strings.Join(c.keptHeader(), "\x00")
 	if c.stream == "short" && c.method != "HEAD" {
 		// the message ended before its declared Content-Length (at a gzip member / zstd frame
 		// boundary the decoder alone sees a valid end): decoded or not, a body shorter than
 		// the original must come with a read error
-		if decode && (hdr != "X-Keep\x00k" || !o.unc || o.n != -1) {
+		if decode && (hdr != kept || !o.unc || o.n != -1) {
 			return false, fmt.Sprintf("decoded case: header %q Uncompressed=%v ContentLength=%d", o.hdr, o.unc, o.n)
 		}
 		if !strings.HasPrefix(o.term, "err") {
@@ -687,7 +764,7 @@ func (c *c14Case) oracle(o c14Obs) (ok bool, why string) {
 		}
 		return true, ""
 	}
-	if hdr != "X-Keep\x00k" || !o.unc || o.n != -1 {
+	if hdr != kept || !o.unc || o.n != -1 {
 		return false, fmt.Sprintf("decoded case: header %q Uncompressed=%v ContentLength=%d", o.hdr, o.unc, o.n)
 	}
 	alg := strings.ToLower(ce)
@@ -711,7 +788,7 @@ func (c *c14Case) oracle(o c14Obs) (ok bool, why string) {
 			return false, "garbage before the error"
 		}
 	case "flip":
-		if (alg == "gzip" || alg == "zstd") && !strings.HasPrefix(o.term, "err") && !bytes.Equal(o.data, c.payload) {
+		if (alg == "gzip" || alg == "zstd") && !c.flipUnchecked() && !strings.HasPrefix(o.term, "err") && !bytes.Equal(o.data, c.payload) {
 			return false, fmt.Sprintf("corrupt %s stream read as %s (no error, not the payload)", alg, verifc14.Digest(o.data, o.term))
 		}
 	}
@@ -737,29 +814,148 @@ var c14Cfgs = []c14Cfg{
 }
 
 type c14Enc struct {
-	name string
-	ce   []string
-	alg  []string // codecs applied to the payload, in order
+	name   string
+	ce     []string
+	alg    []string // codecs applied to the payload, in order
+	mirror bool     // optional white space around a value: learn what arrives (c14Case.arrivedCE)
 }
 
 var c14Encs = []c14Enc{
-	{"gzip", []string{"gzip"}, []string{"gzip"}},
-	{"deflate", []string{"deflate"}, []string{"deflate"}},
-	{"br", []string{"br"}, []string{"br"}},
-	{"zstd", []string{"zstd"}, []string{"zstd"}},
-	{"identity", []string{"identity"}, nil},
-	{"unknown", []string{"foo"}, nil},
-	{"none", nil, nil},
-	{"emptyvalue", []string{""}, nil},
-	{"GZIP", []string{"GZIP"}, []string{"gzip"}},
-	{"Gzip", []string{"Gzip"}, []string{"gzip"}},
-	{"Br", []string{"Br"}, []string{"br"}},
-	{"ZSTD", []string{"ZSTD"}, []string{"zstd"}},
-	{"x-gzip", []string{"x-gzip"}, []string{"gzip"}},
-	{"list", []string{"gzip, br"}, []string{"gzip", "br"}},
-	{"listnospace", []string{"br,gzip"}, []string{"br", "gzip"}},
-	{"twolines", []string{"gzip", "br"}, []string{"gzip", "br"}},
-	{"padded", []string{"gzip;q=1"}, []string{"gzip"}},
+	{"gzip", []string{"gzip"}, []string{"gzip"}, false},
+	{"deflate", []string{"deflate"}, []string{"deflate"}, false},
+	{"br", []string{"br"}, []string{"br"}, false},
+	{"zstd", []string{"zstd"}, []string{"zstd"}, false},
+	{"identity", []string{"identity"}, nil, false},
+	{"unknown", []string{"foo"}, nil, false},
+	{"none", nil, nil, false},
+	{"emptyvalue", []string{""}, nil, false},
+	{"GZIP", []string{"GZIP"}, []string{"gzip"}, false},
+	{"Gzip", []string{"Gzip"}, []string{"gzip"}, false},
+	{"Br", []string{"Br"}, []string{"br"}, false},
+	{"ZSTD", []string{"ZSTD"}, []string{"zstd"}, false},
+	{"x-gzip", []string{"x-gzip"}, []string{"gzip"}, false},
+	{"list", []string{"gzip, br"}, []string{"gzip", "br"}, false},
+	{"listnospace", []string{"br,gzip"}, []string{"br", "gzip"}, false},
+	{"twolines", []string{"gzip", "br"}, []string{"gzip", "br"}, false},
+	{"padded", []string{"gzip;q=1"}, []string{"gzip"}, false},
+	// the class "a Content-Encoding that is a LIST": one field with several codings (gzip first,
+	// last, in the middle, repeated, with empty elements, with white space inside), several
+	// field lines (any position of a supported token, repeated, empty first line, three lines),
+	// and - mirror - optional white space around the value of a single token
+	{"list-dg", []string{"deflate, gzip"}, []string{"deflate", "gzip"}, false},
+	{"list-bg", []string{"br, gzip"}, []string{"br", "gzip"}, false},
+	{"list-ig", []string{"identity, gzip"}, []string{"gzip"}, false},
+	{"list-gi", []string{"gzip, identity"}, []string{"gzip"}, false},
+	{"list-gg", []string{"gzip, gzip"}, []string{"gzip", "gzip"}, false},
+	{"list-zg-nospace", []string{"zstd,gzip"}, []string{"zstd", "gzip"}, false},
+	{"list-innerws", []string{"gzip ,\tbr"}, []string{"gzip", "br"}, false},
+	{"list-leading-comma", []string{", gzip"}, []string{"gzip"}, false},
+	{"list-trailing-comma", []string{"gzip,"}, []string{"gzip"}, false},
+	{"list-three", []string{"deflate, br, zstd"}, []string{"deflate", "br", "zstd"}, false},
+	{"lines-dg", []string{"deflate", "gzip"}, []string{"deflate", "gzip"}, false},
+	{"lines-ig", []string{"identity", "gzip"}, []string{"gzip"}, false},
+	{"lines-xg", []string{"foo", "gzip"}, []string{"gzip"}, false},
+	{"lines-eg", []string{"", "gzip"}, []string{"gzip"}, false},
+	{"lines-gg", []string{"gzip", "gzip"}, []string{"gzip", "gzip"}, false},
+	{"lines-zb", []string{"zstd", "br"}, []string{"zstd", "br"}, false},
+	{"lines-three", []string{"br", "deflate", "gzip"}, []string{"br", "deflate", "gzip"}, false},
+	{"lines-listline", []string{"deflate, br", "gzip"}, []string{"deflate", "br", "gzip"}, false},
+	{"ows-leading", []string{" gzip"}, []string{"gzip"}, true},
+	{"ows-trailing", []string{"gzip "}, []string{"gzip"}, true},
+	{"ows-tab", []string{"\tzstd\t"}, []string{"zstd"}, true},
+	{"ows-both-br", []string{"  br "}, []string{"br"}, true},
+}
+
+// c14Types: Content-Type values for the cross product Content-Type x Content-Encoding. The
+// decision must not read Content-Type at all (a "this .tar.gz is meant to stay compressed"
+// heuristic breaks the first clause of the property): media types that NAME a compression format,
+// archive and already-compressed types, parameters, case, malformed values, no field at all.
+// (Types containing text/json/xml/html/java carry charset=utf-8: without it the client's charset
+// auto-decoder - C15's matter - may rewrite the body.)
+var c14Types = []string{
+	"application/octet-stream", "application/gzip", "application/x-gzip", "application/x-gunzip", "application/x-tgz",
+	"application/x-gtar", "application/x-compressed", "application/x-compress", "application/gzip; charset=binary",
+	"APPLICATION/GZIP", "Application/X-Gzip; name=\"a.tgz\"", "application/x-tar", "application/tar+gzip",
+	"application/zstd", "application/x-zstd", "application/x-brotli", "application/brotli", "application/zlib",
+	"application/x-deflate", "application/deflate", "application/zip", "application/x-bzip2", "application/x-xz",
+	"application/x-7z-compressed", "application/x-rar-compressed", "application/vnd.debian.binary-package",
+	"application/x-rpm", "application/wasm", "application/pdf", "image/png", "image/jpeg", "video/mp4", "font/woff2",
+	"multipart/x-gzip", "binary/octet-stream", "application/gzip;", "gzip", "application/", "*/*", "",
+	"text/plain; charset=utf-8", "application/json; charset=utf-8", "image/svg+xml; charset=utf-8",
+}
+
+// c14Extras: values for the fields of c14Others (after Content-Type) that a "clever" decision
+// might look at. Each is harmless: none changes what the property says.
+var c14Extras = map[string][]string{
+	"Content-Disposition":       {"attachment; filename=\"backup.tar.gz\"", "attachment; filename=data.gz", "inline", "attachment; filename=\"x.zst\""},
+	"Cache-Control":             {"no-transform", "no-store, no-transform", "public, max-age=3600"},
+	"Vary":                      {"Accept-Encoding", "*", "Accept-Encoding, User-Agent"},
+	"Etag":                      {"\"abc-gzip\"", "W/\"abc\"", "\"5f3e-br\""},
+	"Content-Md5":               {"Q2hlY2sgSW50ZWdyaXR5IQ=="},
+	"Content-Location":          {"/files/a.tar.gz", "/index.html.br"},
+	"Content-Language":          {"en"},
+	"Accept-Ranges":             {"bytes", "none"},
+	"X-Content-Type-Options":    {"nosniff"},
+	"X-Content-Encoding":        {"gzip", "identity"},
+	"Content-Transfer-Encoding": {"binary", "gzip"},
+}
+
+// c14DrawExtras: k of the extra fields (keys in c14Others order, as observed).
+func c14DrawExtras(r *rand.Rand, k int) []string {
+	var out []string
+	keys := c14Others[1:]
+	pick := map[int]bool{}
+	for len(pick) < k && len(pick) < len(keys) {
+		pick[r.Intn(len(keys))] = true
+	}
+	for i, key := range keys {
+		if pick[i] {
+			out = append(out, key, verifh.Pick(r, c14Extras[key]))
+		}
+	}
+	return out
+}
+
+// c14TypeMatrix: the product {configurations} x {encodings} x {Content-Type values}, each case with
+// 0-3 further harmless header fields. core = the part every quick run contains in full: the default
+// and the AutoDecompress configuration x the four codings, GZIP and no encoding x every type.
+func c14TypeMatrix(r *rand.Rand, proto string) (core, rest []*c14Case) {
+	cfgs := []int{0, 2, 4, 5, 3, 1}
+	encs := []int{0, 1, 2, 3, 8, 6, 4, 13, 17, 27}
+	for _, ci := range cfgs {
+		cfg := c14Cfgs[ci]
+		for _, ei := range encs {
+			enc := c14Encs[ei]
+			for ti, ct := range c14Types {
+				p := verifc14.Payload(r, 1+r.Intn(3))
+				wire, alg := c14Encode(enc, p)
+				c := &c14Case{
+					id: fmt.Sprintf("%s-ct-%d-%s-%d", proto, ci, enc.name, ti), proto: proto, dc: cfg.dc, auto: cfg.auto, ae: cfg.ae,
+					method: "GET", ce: enc.ce, ctype: ct, extra: c14DrawExtras(r, r.Intn(4)), payload: p, wire: wire,
+					stream: "valid", alg: alg, framing: "cl", sizes: verifc14.Sizes(r),
+				}
+				if r.Intn(4) == 0 {
+					c.framing = "stream"
+				}
+				if (ci == 0 || ci == 2) && ei <= 8 && ei != 4 {
+					core = append(core, c)
+				} else {
+					rest = append(rest, c)
+				}
+			}
+		}
+	}
+	return
+}
+
+// c14TypeCases: core + a sample of the rest (all of it in the thorough tier).
+func c14TypeCases(r *rand.Rand, proto string, nRest int) []*c14Case {
+	core, rest := c14TypeMatrix(r, proto)
+	r.Shuffle(len(rest), func(i, j int) { rest[i], rest[j] = rest[j], rest[i] })
+	if nRest > len(rest) {
+		nRest = len(rest)
+	}
+	return append(core, rest[:nRest]...)
 }
 
 type c14Method struct{ method, rng string }
@@ -788,7 +984,7 @@ func c14Matrix(r *rand.Rand, proto string) []*c14Case {
 				wire, alg := c14Encode(enc, p)
 				out = append(out, &c14Case{
 					id: fmt.Sprintf("%s-m-%d-%d-%s", proto, ci, mi, enc.name), proto: proto, dc: cfg.dc, auto: cfg.auto, ae: cfg.ae,
-					method: m.method, rng: m.rng, ce: enc.ce, ctype: "application/octet-stream", payload: p, wire: wire,
+					method: m.method, rng: m.rng, ce: enc.ce, mirror: enc.mirror, ctype: "application/octet-stream", payload: p, wire: wire,
 					stream: "valid", alg: alg, framing: "cl", sizes: verifc14.Sizes(r),
 				})
 			}
@@ -815,6 +1011,9 @@ func c14Matrix(r *rand.Rand, proto string) []*c14Case {
 					}
 				} else {
 					c.status = st
+					if st == 304 {
+						c.ctype = "" // net/http's HTTP/1.1 server suppresses Content-Type on a 304 (its HTTP/2 server does not)
+					}
 				}
 				out = append(out, c)
 			}
@@ -838,10 +1037,24 @@ func c14Random(r *rand.Rand, proto string, n, nBig int) []*c14Case {
 		}
 		p := verifc14.Payload(r, pc)
 		wire, alg := c14Encode(enc, p)
+		params := ""
+		if r.Intn(2) == 0 {
+			// the codec's parameter space: level / quality, window, single-segment frames, check sum,
+			// optional gzip header fields, sync flushes, padding (verifc14.CompressP)
+			wire, params = verifc14.CompressP(r, enc.alg[0], p, verifc14.ZstdMaxLogQuick)
+		}
+		if i == n && nBig > 0 {
+			// one 12 MiB payload behind a 16 MiB zstd window (no stock encoder level goes beyond
+			// 8 MiB), streamed or as one single-segment frame
+			cfg, enc, alg = c14Cfgs[2], c14Encs[3], "zstd"
+			p = verifc14.LongRepeat(r, 12<<20)
+			single := r.Intn(2) == 0
+			wire, params = verifc14.CompressZstd(p, 24, single), fmt.Sprintf("zstd window=2^24 single=%v", single)
+		}
 		c := &c14Case{
 			id: fmt.Sprintf("%s-r-%d", proto, i), proto: proto, dc: cfg.dc, auto: cfg.auto, ae: cfg.ae, method: "GET",
 			ce: enc.ce, ctype: "application/octet-stream", payload: p, wire: wire, stream: "valid", alg: alg, framing: "cl",
-			sizes: verifc14.Sizes(r),
+			sizes: verifc14.Sizes(r), params: params,
 		}
 		if r.Intn(3) == 0 {
 			c.framing = "stream"
@@ -884,6 +1097,12 @@ func c14Random(r *rand.Rand, proto string, n, nBig int) []*c14Case {
 			c.wire = nil
 		case k == 7: // a text content type without charset: the charset auto-decoder wraps the body
 			c.ctype = "text/plain; charset=utf-8"
+		}
+		if r.Intn(3) == 0 { // Content-Type x everything else (payload size, framing, damage, read sizes)
+			c.ctype = verifh.Pick(r, c14Types)
+		}
+		if r.Intn(3) == 0 {
+			c.extra = c14DrawExtras(r, 1+r.Intn(4))
 		}
 		out = append(out, c)
 	}
@@ -958,7 +1177,41 @@ func c14RunLane(t *testing.T, s *verifh.Session, e *c14Env, cases []*c14Case, ne
 		if len(c.ce) > 0 {
 			ce = strings.Join(c.ce, "|")
 		}
-		human := fmt.Sprintf("%s %s dc=%v auto=%v callerAE=%q range=%q CE=%q stream=%s/%s framing=%s payload=%dB wire=%dB reads=%v", c.proto, c.method, c.dc, c.auto, c.ae, c.rng, ce, c.alg, c.stream, c.framing, len(c.payload), len(c.wire), c.sizes)
+		human := fmt.Sprintf("%s %s dc=%v auto=%v callerAE=%q range=%q CE=%q type=%q extra=%q stream=%s/%s framing=%s payload=%dB wire=%dB reads=%v", c.proto, c.method, c.dc, c.auto, c.ae, c.rng, ce, c.ctype, c.extra, c.alg, c.stream, c.framing, len(c.payload), len(c.wire), c.sizes)
+		if c.params != "" {
+			human += " [" + c.params + "]"
+			count("codec-params")
+			if strings.Contains(c.params, "single=true") {
+				count("zstd:single-segment")
+			}
+			if len(c.payload) >= 12<<20 {
+				count("12MiB")
+			}
+		}
+		if c.mirror {
+			human += fmt.Sprintf(" arrived-CE=%q", c.arrived)
+			count("ows")
+			if a := c.arrivedCE(); len(a) > 0 && a[0] != strings.TrimSpace(a[0]) {
+				count("ows:delivered-padded")
+			}
+		}
+		if len(c.ce) > 1 {
+			count("ce-lines>1")
+		} else if len(c.ce) == 1 && strings.Contains(c.ce[0], ",") {
+			count("ce-list")
+		}
+		if c14CompressedType(c.ctype) {
+			count("type:compressed-media")
+			if o.unc {
+				count("type:compressed-media+decoded")
+			}
+		}
+		if len(c.extra) > 0 {
+			count("extra-fields")
+			if o.unc {
+				count("extra-fields+decoded")
+			}
+		}
 		if !ok {
 			human += " :: " + why
 		}
@@ -975,7 +1228,7 @@ func c14RunLane(t *testing.T, s *verifh.Session, e *c14Env, cases []*c14Case, ne
 			// klauspost zstd maps the source's unexpected EOF to a clean EOF at a frame boundary
 			// (permanent known finding, see the unit lane)
 			if !ok && c.alg == "zstd" && o.unc && o.term == "eof" {
-				if _, _, term := verifc14.Ref("zstd", c.wireBody(), io.ErrUnexpectedEOF); term == "eof" {
+				if _, _, term := verifc14.RefRaw("zstd", c.wireBody(), io.ErrUnexpectedEOF); term == "eof" {
 					class = "zstd-source-error-at-frame-boundary"
 				}
 			}
@@ -1020,7 +1273,7 @@ func c14RunLane(t *testing.T, s *verifh.Session, e *c14Env, cases []*c14Case, ne
 		if o.proto != int(c.proto[1]-'0') && o.rtErr == "" {
 			t.Fatalf("infra: case %s answered over HTTP/%d", c.id, o.proto)
 		}
-		s.Case("c14x "+c.args(), o.answer(c), ok, class, o.unc || len(c.ce) > 0, human)
+		s.Case("c14xj "+c.args(), o.answer(c), ok, class, o.unc || len(c.ce) > 0, human)
 	}
 	for _, k := range need {
 		if hist[k] == 0 {
@@ -1029,9 +1282,10 @@ func c14RunLane(t *testing.T, s *verifh.Session, e *c14Env, cases []*c14Case, ne
 	}
 }
 
-const c14Rule = "in-process origin; FULL matrix {default, DisableCompression, AutoDecompress, caller Accept-Encoding, caller AE+AutoDecompress, DisableCompression+AutoDecompress, caller AE gzip} x {GET, HEAD, Range GET} x Content-Encoding {gzip, deflate, br, zstd, identity, unknown, none, empty value, GZIP, Gzip, Br, ZSTD, x-gzip, 'gzip, br', 'br,gzip', two header lines, 'gzip;q=1'} with payloads {empty,tiny,text,random}; plus random decoded cases: payload up to multi-MiB, multi-member gzip, Content-Length vs streamed framing, streams truncated / bit-flipped (first bytes, last bytes, anywhere), zero-length body, multi-member gzip / multi-frame zstd messages that end BEFORE the declared Content-Length at a member/frame boundary, just after it, or anywhere (decoded under every configuration and undecoded; oracle: read error, never a silently shortened body), 1-4 cycling Read sizes from {1..65536}. Observed: Accept-Encoding at the origin, Response.Header (Content-Encoding, Content-Length, X-Keep), ContentLength, Uncompressed, body bytes + final read error. Compared with the Lean model (c14x) and judged by an independent Go oracle of the property text; non-trivial = a Content-Encoding was sent or the body was decoded"
+const c14Rule = "in-process origin; FULL matrix {default, DisableCompression, AutoDecompress, caller Accept-Encoding, caller AE+AutoDecompress, DisableCompression+AutoDecompress, caller AE gzip} x {GET, HEAD, Range GET} x Content-Encoding {gzip, deflate, br, zstd, identity, unknown, none, empty value, GZIP, Gzip, Br, ZSTD, x-gzip, 'gzip, br', 'br,gzip', two header lines, 'gzip;q=1'} with payloads {empty,tiny,text,random}; plus random decoded cases: payload up to multi-MiB (one of 12 MiB behind a 16 MiB zstd window, streamed or single-segment), half of them encoded with DRAWN codec parameters (level / quality 0..11, brotli lgwin 10..24, zstd window 2^10..2^25, single-segment, check sum on/off, no-entropy / all-literal modes, padding frames, gzip FEXTRA/FNAME/FCOMMENT/MTIME/OS, sync flushes), multi-member gzip, Content-Length vs streamed framing, streams truncated / bit-flipped (first bytes, last bytes, anywhere), zero-length body, multi-member gzip / multi-frame zstd messages that end BEFORE the declared Content-Length at a member/frame boundary, just after it, or anywhere (decoded under every configuration and undecoded; oracle: read error, never a silently shortened body), 1-4 cycling Read sizes from {1..65536}; Content-Encoding LISTS (one field: gzip first / last / repeated / empty elements / inner white space; several field lines: supported token in any position, repeated, empty first line, three lines; optional white space around a single token, the value as it ARRIVED learnt from a mirror field); the product {default, AutoDecompress (full), other configurations (sampled; full in thorough)} x {gzip, deflate, br, zstd, GZIP, none, identity, lists} x 43 Content-Type values (media types naming a compression or archive format, parameters, case, malformed, absent) with 0-3 further harmless fields (Content-Disposition filename=.gz, Cache-Control: no-transform, Vary, ETag, Content-MD5, Content-Location, X-Content-Encoding, ...): the decision must not depend on them and they must arrive unchanged. Observed: Accept-Encoding at the origin, Response.Header (Content-Encoding, Content-Length, X-Keep, Content-Type and the further fields), ContentLength, Uncompressed, body bytes + final read error. Compared with the Lean model (c14xj: Lines.Joined.process) and judged by an independent Go oracle of the property text; non-trivial = a Content-Encoding was sent or the body was decoded"
 
-var c14Need = []string{"status:206", "status:204", "status:304", "short:boundary", "short:anywhere", "short-decoded", "decoded", "untouched", "HEAD", "Range", "decoded:gzip", "decoded:deflate", "decoded:br", "decoded:zstd", "stream:trunc", "stream:flip", "stream:emptywire", "framing:stream", "decoded-error", "multi-MiB", "multi-member"}
+var c14Need = []string{"status:206", "status:204", "status:304", "short:boundary", "short:anywhere", "short-decoded", "decoded", "untouched", "HEAD", "Range", "decoded:gzip", "decoded:deflate", "decoded:br", "decoded:zstd", "stream:trunc", "stream:flip", "stream:emptywire", "framing:stream", "decoded-error", "multi-MiB", "multi-member",
+	"type:compressed-media", "type:compressed-media+decoded", "extra-fields", "extra-fields+decoded", "ce-list", "ce-lines>1", "ows", "codec-params", "12MiB"}
 
 // TestVerif_C14_e2e_h1: HTTP/1.1.
 func TestVerif_C14_e2e_h1(t *testing.T) {
@@ -1041,6 +1295,7 @@ func TestVerif_C14_e2e_h1(t *testing.T) {
 	r := s.Rand()
 	cases := append(c14Matrix(r, "h1"), c14Random(r, "h1", verifh.N(300, 8000), verifh.N(3, 16))...)
 	cases = append(cases, c14ShortCases(r, "h1", verifh.N(54, 1800))...)
+	cases = append(cases, c14TypeCases(r, "h1", verifh.N(80, 1<<30))...)
 	c14RunLane(t, s, e, cases, c14Need)
 	s.Finish()
 }
@@ -1053,6 +1308,7 @@ func TestVerif_C14_e2e_h2(t *testing.T) {
 	r := s.Rand()
 	cases := append(c14Matrix(r, "h2"), c14Random(r, "h2", verifh.N(300, 8000), verifh.N(3, 16))...)
 	cases = append(cases, c14ShortCases(r, "h2", verifh.N(54, 1800))...)
+	cases = append(cases, c14TypeCases(r, "h2", verifh.N(80, 1<<30))...)
 	c14RunLane(t, s, e, cases, c14Need)
 	s.Finish()
 }
@@ -1065,6 +1321,7 @@ func TestVerif_C14_e2e_h3(t *testing.T) {
 	r := s.Rand()
 	cases := append(c14Matrix(r, "h3"), c14Random(r, "h3", verifh.N(250, 8000), verifh.N(2, 16))...)
 	cases = append(cases, c14ShortCases(r, "h3", verifh.N(54, 1800))...)
+	cases = append(cases, c14TypeCases(r, "h3", verifh.N(80, 1<<30))...)
 	c14RunLane(t, s, e, cases, c14Need)
 	s.Finish()
 }
@@ -1086,9 +1343,15 @@ func TestVerif_C14_cross(t *testing.T) {
 	base = append(base, m[:verifh.N(90, len(m))]...)
 	base = append(base, c14Random(r, "x", verifh.N(150, 4000), verifh.N(1, 6))...)
 	base = append(base, c14ShortCases(r, "x", verifh.N(18, 360))...)
+	{
+		core, rest := c14TypeMatrix(r, "x")
+		all := append(core, rest...)
+		r.Shuffle(len(all), func(i, j int) { all[i], all[j] = all[j], all[i] })
+		base = append(base, all[:verifh.N(70, 1500)]...)
+	}
 	hist := map[string]int{}
 	for _, b := range base {
-		var answers []string
+		var answers, arrivals []string
 		var obs []c14Obs
 		class := ""
 		transportAsked := !b.dc && b.ae == "" && b.rng == "" && b.method != "HEAD"
@@ -1099,6 +1362,7 @@ func TestVerif_C14_cross(t *testing.T) {
 			c.id = p + "-" + b.id
 			o := e.run(&c)
 			obs = append(obs, o)
+			arrivals = append(arrivals, strings.Join(c.arrivedCE(), "\x00"))
 			if o.panicText != "" {
 				answers = append(answers, "panic")
 			} else {
@@ -1125,6 +1389,13 @@ func TestVerif_C14_cross(t *testing.T) {
 		}
 		idx := map[string]int{"h1": 0, "h2": 1, "h3": 2}[c2.proto]
 		sameReads := again == answers[idx]
+		// optional white space around the Content-Encoding value: HTTP/1.1 parsers strip it, HPACK /
+		// QPACK strings arrive as sent - the decoding branches were given DIFFERENT values, so there is
+		// nothing to agree on (each protocol lane judges its own arrival against the model)
+		if b.mirror && !(arrivals[0] == arrivals[1] && arrivals[1] == arrivals[2]) {
+			same = true
+			s.Count("ows-arrival-differs")
+		}
 		// a zero-length body with a Content-Encoding: HTTP/3 has no bodiless exit (documented)
 		if b.stream == "short" {
 			s.Count("short")
@@ -1137,7 +1408,7 @@ func TestVerif_C14_cross(t *testing.T) {
 		if len(b.ce) > 0 {
 			ce = strings.Join(b.ce, "|")
 		}
-		human := fmt.Sprintf("%s dc=%v auto=%v callerAE=%q range=%q CE=%q stream=%s/%s framing=%s payload=%dB wire=%dB", b.method, b.dc, b.auto, b.ae, b.rng, ce, b.alg, b.stream, b.framing, len(b.payload), len(b.wire))
+		human := fmt.Sprintf("%s dc=%v auto=%v callerAE=%q range=%q CE=%q type=%q extra=%q stream=%s/%s framing=%s payload=%dB wire=%dB", b.method, b.dc, b.auto, b.ae, b.rng, ce, b.ctype, b.extra, b.alg, b.stream, b.framing, len(b.payload), len(b.wire))
 		detail := fmt.Sprintf("h1: %s | h2: %s | h3: %s | %s with reads %v: %s", answers[0], answers[1], answers[2], c2.proto, c2.sizes, again)
 		if !same {
 			human += " :: the three protocols differ"
@@ -1414,7 +1685,7 @@ func TestVerif_C14_witness(t *testing.T) {
 				if x.ctype == "application/octet-stream" {
 					payload = verifc14.Payload(r, 1+r.Intn(3))
 				}
-				wire, alg := c14Encode(c14Enc{"w", x.ce, x.alg}, payload)
+				wire, alg := c14Encode(c14Enc{name: "w", ce: x.ce, alg: x.alg}, payload)
 				c := &c14Case{id: fmt.Sprintf("w-%d-%s-%s", wi, proto, level), proto: proto, auto: x.auto, ae: x.ae, method: x.meth, ce: x.ce,
 					ctype: x.ctype, payload: payload, wire: wire, stream: "valid", alg: alg, framing: "cl", sizes: []int{512}}
 				transportAsked := c.ae == "" && c.method != "HEAD"
